@@ -1000,8 +1000,57 @@ struct Gen {
     return (int)P.modules.size() - 1;
   }
 
+  // a product at the edge of the documented 52-bit budget: a monomial of ba bits times a dense polynomial of 52-ba bits;
+  // the result (coefficients up to 2^52) is compared within the documented error bound instead of exactly
+  bool emit_edge_product(int mod) {
+    if (P.modules[mod].type == 1) return false;
+    const int ba = (int)r.range(3, 49), bb = 52 - ba;
+    if (r.chance(1, 2)) {
+      Call c;
+      c.op = OP_SMALL_PRODUCT;
+      c.mod = mod;
+      int a = new_input_zv(mod, 1, ba, PAT_SINGLE), b = new_input_zv(mod, 1, bb > 49 ? 49 : bb, PAT_RANDOM);
+      if (r.chance(1, 2)) std::swap(a, b);
+      c.s[0] = new_out(T_ZV, mod, 1);
+      c.s[1] = a;
+      c.s[2] = b;
+      c.sz[0] = c.sz[1] = c.sz[2] = 1;
+      c.p[3] = 1;
+      return push_call(c);
+    }
+    Call pc;
+    pc.op = OP_SVP_PREPARE;
+    pc.mod = mod;
+    pc.s[0] = new_out(T_PPOL, mod, 1);
+    pc.s[1] = new_input_zv(mod, 1, ba, PAT_SINGLE);
+    pc.sz[0] = pc.sz[1] = 1;
+    if (!push_call(pc)) return false;
+    Call c;
+    c.op = OP_SVP_APPLY_DFT;
+    c.mod = mod;
+    uint64_t as = 1 + r.below(3), rs = 1 + r.below(3);
+    c.s[0] = new_out(T_DFT, mod, rs);
+    c.s[1] = pc.s[0];
+    c.s[2] = new_input_zv(mod, as, bb > 49 ? 49 : bb, PAT_RANDOM);
+    c.sz[0] = rs;
+    c.sz[1] = 1;
+    c.sz[2] = as;
+    c.p[3] = 1;
+    if (!push_call(c)) return false;
+    Call ic;
+    ic.op = r.chance(1, 2) ? OP_IDFT : OP_IDFT_TMP_A;
+    ic.mod = mod;
+    uint64_t bs = 1 + r.below(3);
+    ic.s[0] = new_out(T_BIG, mod, bs);
+    ic.s[1] = c.s[0];
+    ic.sz[0] = bs;
+    ic.sz[1] = rs;
+    return push_call(ic);
+  }
+
   bool emit_any() {
     uint64_t x = r.below(100);
+    if (cfg.edge_products && cfg.module_ops && !P.modules.empty() && r.chance(4, 100)) return emit_edge_product((int)r.below(P.modules.size()));
     int wm = cfg.module_ops ? 55 : 0, wt = cfg.table_ops ? 20 : 0, ws = cfg.simple_ops ? 20 : 0, wq = cfg.q120 ? 8 : 0, wl = cfg.life_ops ? 8 : 0,
         wr = cfg.repeats ? 30 : 0;
     int wk = cfg.kernel_pairs ? 8 : 0;
